@@ -23,8 +23,8 @@ ASSUMPTIONS = [
     "random.uniform(a, b) lies between a and b; send_sd observed as a call (no remote argument = multicast group)",
     "repetition count 0..4 enumerated (the property's own bound); delays and TTL symbolic",
 ]
-BOUNDED = ["zero to two watched filters (the property quantifies over one to four; three already take 13 minutes; ids/versions incl. wildcards symbolic); repetition count enumerated 0..4 (the property's own bound)"]
-EXPLANATION = "the find task is verified as a trace for every timing configuration and every change of the known offers between rounds; the number of watched filters is bounded in shape (bounded_stand_ins)"
+BOUNDED = ["repetition count enumerated 0..4 (the property's own bound); _service_found is checked against a store of up to three offers from two sources"]
+EXPLANATION = "the find task is verified as a trace for every timing configuration, arbitrarily many watched filters (comprehension contract: an arbitrary filter contributes its FindService entry iff it has no live offer at that instant) and every change of the known offers between rounds"
 
 
 class _L(SD.ClientServiceListener):
@@ -33,7 +33,47 @@ class _L(SD.ClientServiceListener):
     pass
 
 
+def _gen_filter(vc, name):
+    return SCFG.gen_service(vc, name, with_options=False)
+
+
+def _gen_listeners(vc, name, key):
+    return {_L()}
+
+
+# ---- contract of the comprehension in _build_entries (ARBITRARILY MANY watched filters):
+#   element : an arbitrary watched filter contributes exactly its FindService entry (with the
+#             configured TTL) iff no live offer matches it now, and nothing otherwise
+#   exit    : the round's list is empty iff no watched filter is missing (semantics of a
+#             filtered comprehension over the element contract)
+
+
+def _be_head(vc, v, entering):
+    st = vc.stashed("sfs")
+    if not entering:
+        vc.assume((v["$result_len"] > 0) == st["missing"][st["round"]])
+
+
+def _be_post(vc, v):
+    st = vc.stashed("sfs")
+    st["element"] = (v["service"], v["$included"], v["$elt"])
+
+
+def _be_result(vc, res):
+    st = vc.stashed("sfs")
+    st["lists"].append(res)
+
+
+LOOPS = {("someip.sd.ServiceDiscover.send_find_services/_build_entries", "comp", 0): {"head": _be_head, "post": _be_post, "result": _be_result}}
+
+
 def ob_send_find_services(vc):
+    """the find task for ARBITRARILY MANY watched filters: initial wait inside the window,
+    then rounds at doubling delays; each round is computed from the offers known at that
+    instant (they change arbitrarily during every wait), goes to the multicast group, holds
+    exactly the watched filters without a live offer (element contract of the comprehension)
+    and the task ends at the first round in which nothing is missing, at the latest after
+    1 + REPETITIONS_MAX rounds"""
     loop = vc.install_loop(LL.FakeLoop(vc.real("now", 0)))
     prot, sent = SS.gen_sd_protocol(vc, "prot")
     disc = prot.discovery
@@ -44,81 +84,104 @@ def ob_send_find_services(vc):
     t.REPETITIONS_MAX = vc.choice("repetitions", (0, 1, 2, 3, 4))
     t.REPETITIONS_BASE_DELAY = vc.real("base_delay", 0)
     t.FIND_TTL = vc.int("find_ttl", 1, 0xFFFFFF)
-    n = vc.choice("watched", (0, 1, 2))
-    filters = [SCFG.gen_service(vc, "F" + str(j), with_options=False) for j in range(n)]
-    for a in range(n):
-        for b in range(a + 1, n):
-            vc.assume(filters[a].service_id != filters[b].service_id)
-    for f in filters:
-        disc.watched_services[f].add(_L())
-    A = vc.opaque("A", "addr")
+    disc.watched_services = vc.lazy_dict("watched", _gen_listeners, _gen_filter, default=set)
     log = []
-    found_at = []  # per sleep: which filters have a matching live offer afterwards
+    # per round: is any watched filter without a live offer?  (arbitrary: offers and
+    # stop-offers arrive while the task sleeps)
+    st = {"round": -1, "missing": [vc.bool("missing_in_round_" + str(k)) for k in range(5)], "lists": [], "element": None, "found": None, "asked": []}
+    vc.stash("sfs", st)
 
     def on_send(entries, remote=None):
-        log.append(("find", list(entries), remote))
+        log.append(("find", entries, remote))
 
     vc.stub(prot, "send_sd", on_send)
 
     def interference(k, d):
-        # while the task sleeps, offers and stop-offers arrive: any subset may be known now
-        found_at.append([vc.bool("known_" + str(k) + "_" + str(j)) for j in range(n)])
+        st["round"] = st["round"] + 1
 
     def service_found(service):
-        # contract of _service_found (ob_service_found): some live offer matches the filter
-        flags = found_at[len(found_at) - 1]
-        for j in range(n):
-            if service is filters[j]:
-                return flags[j]
-        vc.fail("send_find_services.asks_about_a_service_that_is_not_watched")
-        return True
+        # contract of _service_found (ob_service_found): some live offer matches the filter.
+        # If nothing is missing in this round, every watched filter is found.
+        if vc.native:
+            found = vc.bool("found_" + str(st["round"]) + "_" + str(len(st["asked"])))
+        else:
+            found = vc.bool("found_" + str(len(st["asked"])))
+            if not st["missing"][st["round"]]:
+                vc.assume(found)
+        st["asked"].append((st["round"], service, found))
+        st["found"] = found
+        return found
 
     vc.stub(disc, "_service_found", service_found)
-
     heap = vc.snapshot(prot=prot)
     o = vc.outcome(vc.drive, vc.body(SD.ServiceDiscover.send_find_services)(disc), log, interference, False)
-    vc.check(o.kind == "ret", "send_find_services.ends_normally")
+    vc.check(o.kind != "raise", "send_find_services.never_raises")
     check_frame(vc, heap, "send_find_services", ())
-    if n == 0:
+    if len(disc.watched_services) == 0:
         vc.cover("nothing-watched")
         vc.check_eq(log, [], "send_find_services.nothing_watched_nothing_sent")
         return
-    # expected trace: rounds until every watched service is found or the repetitions are used up
+    vc.check(len(log) >= 1 and log[0][0] == "sleep" and t.INITIAL_DELAY_MIN <= log[0][1] and log[0][1] <= t.INITIAL_DELAY_MAX, "send_find_services.initial_delay_inside_the_window")
+    if vc.native:
+        # a replay runs the real task on a concrete set of filters: the trace is exactly
+        # wait, round, wait, round ... with the entries of the filters not found at that instant
+        expected = []
+        done = False
+        for k in range(1 + t.REPETITIONS_MAX):
+            if done:
+                break
+            expected.append(("sleep", None if k == 0 else (2 ** (k - 1)) * t.REPETITIONS_BASE_DELAY))
+            missing = [a[1].create_find_entry(t.FIND_TTL) for a in st["asked"] if a[0] == k and not a[2]]
+            if len(missing) == 0:
+                done = True
+            else:
+                expected.append(("find", missing, None))
+        vc.check_eq(len(log), len(expected), "send_find_services.number_of_rounds_and_waits")
+        if len(log) == len(expected):
+            for i in range(1, len(expected)):
+                if expected[i][0] == "sleep":
+                    vc.check_eq(log[i], expected[i], "send_find_services.repetition_delays_double")
+                else:
+                    vc.check_eq((log[i][0], list(log[i][1]), log[i][2]), expected[i], "send_find_services.entries_are_exactly_the_watched_services_not_found_now")
+        return
+    # the schedule up to the point this path has reached
     expected = []
     rounds = 0
-    stopped = False
-    for k in range(1 + t.REPETITIONS_MAX):
-        if stopped:
-            break
-        if k < len(found_at):
-            flags = found_at[k]
-        else:
-            vc.fail("send_find_services.too_few_rounds")
-            return
-        delay = None if k == 0 else (2 ** (k - 1)) * t.REPETITIONS_BASE_DELAY
-        expected.append(("sleep", delay))
-        missing = [filters[j].create_find_entry(t.FIND_TTL) for j in range(n) if not flags[j]]
-        if len(missing) == 0:
-            stopped = True
-        else:
-            expected.append(("find", missing, None))
-            rounds += 1
-    if stopped:
-        vc.cover("all-found")
-    if rounds == 1 + t.REPETITIONS_MAX and t.REPETITIONS_MAX > 0:
-        vc.cover("all-rounds")
+    ended = False
+    for k in range(st["round"] + 1):
+        expected.append(("sleep", None if k == 0 else (2 ** (k - 1)) * t.REPETITIONS_BASE_DELAY))
+        if k < len(st["lists"]):
+            # this round's list was computed completely
+            if st["missing"][k]:
+                expected.append(("find", st["lists"][k], None))
+                rounds += 1
+            else:
+                ended = True
     vc.check_eq(len(log), len(expected), "send_find_services.number_of_rounds_and_waits")
-    if len(log) != len(expected):
+    if len(log) == len(expected):
+        for i in range(1, len(expected)):
+            if expected[i][0] == "sleep":
+                vc.check_eq(log[i], expected[i], "send_find_services.repetition_delays_double")
+            else:
+                vc.check_eq(log[i][0], "find", "send_find_services.round_is_a_find_message")
+                vc.check_eq(log[i][2], None, "send_find_services.sent_to_the_multicast_group")
+                vc.check(log[i][1] is expected[i][1], "send_find_services.sends_exactly_the_list_computed_for_this_round")
+    if o.kind == "cut":
+        vc.cover("element")
+        service, included, elt = st["element"]
+        vc.check(not ended, "send_find_services.no_round_after_everything_was_found")
+        vc.check(st["round"] <= t.REPETITIONS_MAX, "send_find_services.bounded_number_of_rounds")
+        vc.check_eq(included, not st["found"], "send_find_services.entries_are_exactly_the_watched_services_not_found_now")
+        if included:
+            vc.check_eq(elt, service.create_find_entry(t.FIND_TTL), "send_find_services.entry_is_the_filters_find_entry_with_the_configured_ttl")
         return
-    vc.check(log[0][0] == "sleep" and t.INITIAL_DELAY_MIN <= log[0][1] and log[0][1] <= t.INITIAL_DELAY_MAX, "send_find_services.initial_delay_inside_the_window")
-    for i in range(1, len(expected)):
-        if expected[i][0] == "sleep":
-            vc.check_eq(log[i], expected[i], "send_find_services.repetition_delays_double")
-        else:
-            vc.check_eq(log[i][0], "find", "send_find_services.round_is_a_find_message")
-            vc.check_eq(log[i][2], None, "send_find_services.sent_to_the_multicast_group")
-            vc.check_eq(log[i][1], expected[i][1], "send_find_services.entries_are_exactly_the_watched_services_not_found_now")
-    vc.check(rounds <= 1 + t.REPETITIONS_MAX, "send_find_services.bounded_number_of_rounds")
+    vc.check(o.kind == "ret", "send_find_services.ends_normally")
+    if ended:
+        vc.cover("all-found")
+        vc.check_eq(len(st["lists"]), st["round"] + 1, "send_find_services.ends_at_the_first_round_with_nothing_missing")
+    else:
+        vc.cover("all-rounds")
+        vc.check_eq(rounds, 1 + t.REPETITIONS_MAX, "send_find_services.all_rounds_used_while_something_is_missing")
 
 
 def ob_service_found(vc):
@@ -159,4 +222,4 @@ def ob_discover_start(vc):
 
 
 HARNESSES = [SCFG.ob_create_find_entry_refines, SCFG.ob_matches_service_refines, ob_service_found, ob_send_find_services, ob_discover_start, C05.ob_handle_offer, C05.ob_expiry]
-EXPECT_COVERS = {"ob_send_find_services": ["nothing-watched", "all-found", "all-rounds"]}
+EXPECT_COVERS = {"ob_send_find_services": ["nothing-watched", "all-found", "all-rounds", "element"]}
